@@ -5,6 +5,7 @@ import (
 	"crypto/sha1"
 	"encoding/binary"
 	"encoding/hex"
+	"errors"
 	"io"
 	"math/rand"
 	"os"
@@ -141,6 +142,18 @@ func runCase(en *Env, c fcase, ioName string, seed int64) (h.Ev, string, bool) {
 						return nil
 					}
 				} else {
+					if i > 0 && (seed+int64(i))%5 == 0 {
+						// an append that the back-end refuses (nothing is stored, the error is returned - a full disk, a quota):
+						// it must leave the file as it was, the appends that follow land where they would have landed
+						inner := df.ReadWriter
+						df.ReadWriter = refusing{inner}
+						_, err := df.WriteLogRecord(&datafile.LogRecord{Key: []byte("refused"), Value: fill(r, 1+r.Intn(3*h.BlockSize))}, header)
+						df.ReadWriter = inner
+						if err == nil {
+							panicked = "refusedok"
+							return nil
+						}
+					}
 					p, err := df.WriteLogRecord(&datafile.LogRecord{Key: recs[i].key, Value: recs[i].val, Type: recs[i].typ, BatchID: recs[i].bt}, header)
 					if err != nil {
 						panicked = "writeerr"
@@ -329,6 +342,11 @@ func lengthFor(r *rand.Rand, abs int64, klen int, choice int) int {
 		return h.BlockSize + r.Intn(3*h.BlockSize)
 	}
 }
+
+// refusing is a back-end whose Write stores nothing and fails.
+type refusing struct{ fio.ReadWriter }
+
+func (refusing) Write([]byte) (int, error) { return 0, errors.New("injected: no space left on device") }
 
 func profFraming(en *Env) {
 	r := en.R
